@@ -271,7 +271,15 @@ Section Writer.
     end.
 
   (* Writer.add *)
-  Definition w_add (st : wstate) (r : record) : res wstate :=
+  (* indexEntryFits: an index entry for the key, with any block position, fits an index
+     block that is not the first block of the table (block header, prefix length, suffix
+     length varint, key, a 10-byte position, one restart, restart count) *)
+  Definition index_entry_fits (st : wstate) (k : bytes) : bool :=
+    (N.of_nat (4 + 1 + length (put_varint ((N.of_nat (length k) * 8) mod two64)) + length k + 10 + 3 + 2)
+       <=? c_block_size (w_cfg st)).
+
+  (* the body of Writer.add behind its two entry checks *)
+  Definition w_add_core (st : wstate) (r : record) : res wstate :=
     let k := rec_key r in
     if negb (bytes_ltb (w_last_key st) k) then Panic site_writer_order
     else
@@ -295,6 +303,15 @@ Section Writer.
                 end
             end
       end.
+
+  (* Writer.add: keys ascending (a programming error otherwise); the key must leave room
+     for its index entry (fix: "the writer refuses a record whose index entry cannot fit a
+     block"); then the block logic *)
+  Definition w_add (st : wstate) (r : record) : res wstate :=
+    let k := rec_key r in
+    if negb (bytes_ltb (w_last_key st) k) then Panic site_writer_order
+    else if negb (index_entry_fits st k) then Err
+    else w_add_core st r.
 
   Definition w_add_ref (st : wstate) (r : ref_record) : res wstate :=
     if Nat.eqb (length (r_name r)) 0 then Err
